@@ -7,6 +7,7 @@ import (
 	"bytes"
 	"fmt"
 	"io"
+	"math"
 	"math/bits"
 	"strings"
 	"time"
@@ -47,7 +48,7 @@ func gwDeclaredResp(o gateway.Object) int {
 	case *gateway.RPCSendHeaders:
 		return 8 + int(r.Max)*80 + 8
 	case *gateway.RPCSendV2Blocks:
-		return int(r.Max) * 5e6
+		return 8 + int(min(r.Max, (math.MaxInt-16)/5000000))*5e6 + 8 // since the fix that made room for the prefix and Remaining
 	case *gateway.RPCSendTransactions:
 		return 5e6
 	case *gateway.RPCSendCheckpoint:
@@ -297,7 +298,7 @@ func runGatewayFits(b *harness.B) {
 			for j, m := 0, cnt(32); j < m; j++ {
 				hist = append(hist, types.BlockID(g.hash()))
 			}
-			mx := uint64(1 + g.n(4))
+			mx := uint64(g.n(5)) // including a request for no blocks at all: the response still carries Remaining
 			req := &gateway.RPCSendV2Blocks{History: hist, Max: mx}
 			_, k := gwRoundTrip(b, req, &gateway.RPCSendV2Blocks{}, false, variant, nil)
 			ok = ok && k
